@@ -265,13 +265,30 @@ func (vc *VC) havocCall(call *ast.CallExpr, callee *types.Func, st *State, why s
 		switch vc.underlying(at).(type) {
 		case *types.Pointer:
 			vc.havocLvalue(a, st)
-		case *types.Map, *types.Slice:
+		case *types.Map, *types.Slice, *types.Struct:
 			// a callee that is neither inlined nor under contract may write the
 			// entries of a map or the elements of a slice it is handed
-			// (maps.DeleteFunc, maps.Copy, a helper that fills a map); which
-			// callees do not is taken from the frame checker's summaries
+			// (maps.DeleteFunc, maps.Copy, a helper that fills a map), also when
+			// they sit in a struct handed over by value; which callees do not is
+			// taken from the frame checker's summaries
 			if vc.calleeMayWriteArg(callee, i) {
 				vc.havocContents(a, st)
+			}
+		}
+	}
+	// the same for the receiver of a value-receiver method (a named map type, a
+	// struct holding a map)
+	if se, ok := ast.Unparen(call.Fun).(*ast.SelectorExpr); ok && callee != nil {
+		if sel, ok := info.Selections[se]; ok && sel.Kind() == types.MethodVal {
+			if s2, ok := sel.Obj().Type().(*types.Signature); ok && s2.Recv() != nil {
+				if _, isPtr := s2.Recv().Type().(*types.Pointer); !isPtr {
+					switch vc.underlying(s2.Recv().Type()).(type) {
+					case *types.Map, *types.Slice, *types.Struct:
+						if vc.calleeMayWriteArg(callee, -1) {
+							vc.havocContents(se.X, st)
+						}
+					}
+				}
 			}
 		}
 	}
